@@ -16,7 +16,7 @@ func init() {
 		ID:        "C14",
 		Level:     "other",
 		Technique: "who-may-call tables for the four record hooks and their helpers (type-resolved interface-method call sites), dominance rules that place the produce hooks unconditionally before every promise path, store classification of the buffered-fetch fields (every non-empty store paired with hookBuffered, every clearing store followed on all paths by the deferred unbuffered hook of the taken copy), removal-pairing rules for the partial takes, capture analysis of the deferred dispatch closure (no aliasing of the fetch's topic/partition arrays), sibling agreement of the gauge walks, and must-pass rules from every take/discard to the dispatch of the deferred hooks",
-		Explanation: "(1) produce: OnProduceRecordBuffered is called at exactly one site, in Client.produce, for the record parameter, under no condition other than `hooks registered`, and that site dominates every promise path (promiseRecordBeforeBuf/promiseRecord/loadPartsAndPartition/the admission increment) and every return of produce; OnProduceRecordUnbuffered is called at exactly one site, in finishRecordPromise, with (pr.Record, err); every call of a promisedRec's promise is in finishRecordPromise, has the same (pr.Record, err), and is dominated by the unconditional hook dispatch; err is never reassigned; finishRecordPromise is called only by finishPromises with (pr, b.err, b.beforeBuf) (C01 proves each promise runs exactly once); producer.init registers every hook implementing the interfaces (independent type assertions); " +
+		Explanation: "(1) produce: OnProduceRecordBuffered is called at exactly one site, in Client.produce, for the record parameter, under no condition other than `hooks registered`, and that site dominates every promise path (promiseRecordBeforeBuf/promiseRecord/loadPartsAndPartition/the admission increment) and every return of produce; OnProduceRecordUnbuffered is called at exactly one site, in finishRecordPromise, with (pr.Record, err); every call of a promisedRec's promise is in finishRecordPromise, has the same (pr.Record, err), and is dominated by the unconditional hook dispatch; err is never reassigned; finishRecordPromise is called only by finishPromises with (pr, b.err, b.beforeBuf) (C01 proves each promise runs exactly once); producer.init registers every hook implementing the interfaces (independent type assertions); produce-rebuffer-once (own rule, complementary to C01's bufferRecord-processed-contract which requires constant results): recBuf.bufferRecord - whose false result makes doPartition offer the same record again - returns a value that is provably true (three-valued evaluation of the returned expression under the branch facts of the path) on every path that failed the record with promiseRecord or appended it, provably false on the arm where tryBuffer aborted without touching it, and true everywhere else; only the new-batch tryBuffer receives the abort flag; bufferRecord is called only by doPartition, whose re-offer is under `!processed`, passes false and is not in a loop; " +
 			"(2) fetch: OnFetchRecordBuffered is called only in source.hookBuffered and OnFetchRecordUnbuffered only in the closure queued by source.hookDeferUnbuffered; hookBuffered/hookDeferUnbuffered are called only from the confirmed buffer/take functions; every store of a non-empty buffered fetch into source.buffered / sourceShare.buffered is followed by hookBuffered(&thatFetch); every clearing store is preceded by a copy of the field and followed on all paths by hookDeferUnbuffered(&copy.fetch, ...); discard passes polled=false, takes pass true; in the two takeNBuffered every advance of the buffered fetch (Topics/Partitions/Records re-slice) is paired with an append of the removed element to the returned or the stripped fetch (or is an advance over an emptied element), and both fetches reach hookDeferUnbuffered on every path; the closure queued by hookDeferUnbuffered captures only the flattened []*Record, the hook slice and the polled flag (never the *Fetch or a topics/partitions slice header, which callers compact in place afterwards) and calls OnFetchRecordUnbuffered(r, polled) for every captured record and hook; the gauges consumer.bufferedRecords/bufferedBytes are written only by hookBuffered (+int64(nrecs), +nbytes) and by both arms of hookDeferUnbuffered (-int64(nrecs), -nbytes), every exit of those functions has passed both Adds, and all walks accumulate nrecs/nbytes identically; " +
 			"(3) dispatch: consumer.deferredFetchHooks is appended only by hookDeferUnbuffered and swapped to nil only in runDeferredFetchHooks and stopSession, under sourcesReadyMu, after being copied to a local whose every element is called; every call of a poller's fill closure (the only callers of the take functions) is followed on all paths by runDeferredFetchHooks(); every discardBuffered (only in stopSession) is followed by the asynchronous dispatch.",
 		NotDecided: "per-record pairing across interleavings of concurrent pollers and invalidations (schedule property); that user hook implementations terminate; exactly-once execution of the promise itself (C01).",
@@ -30,6 +30,7 @@ func runC14(c *Ctx) {
 		return
 	}
 	c14produce(c, m)
+	c14rebuffer(c, m)
 	c14fetchCallers(c, m)
 	c14stores(c, m)
 	c14partialTake(c, m)
@@ -1312,5 +1313,170 @@ func c14dispatch(c *Ctx, m *Module) {
 			return true
 		})
 		c.Check(okGo, rule, f.Key+"#dispatch is asynchronous", f.Pos(), m, "", "stopSession does not dispatch the deferred hooks in a goroutine: its callers hold c.mu, a re-entrant hook deadlocks")
+	}
+}
+
+// ---------------------------------------------------------------------------
+// (1b) produce side: bufferRecord's "processed" result
+// ---------------------------------------------------------------------------
+
+// c14rebuffer: Client.doPartition offers a record to recBuf.bufferRecord and,
+// when told "not processed" (false), offers the same record again. Every
+// offer that fails the record (promiseRecord) or appends it ends in exactly
+// one finishRecordPromise, i.e. one OnProduceRecordUnbuffered + one promise.
+// So bufferRecord may answer false only on a path where nothing was done with
+// the record (tryBuffer's aborted result), must answer false there (else the
+// record is dropped: buffered hook without unbuffered hook), and must answer
+// true on every path that failed or appended the record (else the record is
+// finished twice for one OnProduceRecordBuffered).  The value of a
+// non-constant return expression is evaluated three-valued under the branch
+// facts that hold at the return.
+func c14rebuffer(c *Ctx, m *Module) {
+	rule := "produce-rebuffer-once"
+	f := c.NeedFunc(m, "kgo.recBuf.bufferRecord")
+	tb := c.NeedFunc(m, "kgo.recBatch.tryBuffer")
+	prom := m.Method("kgo", "producer", "promiseRecord")
+	if f == nil || tb == nil || prom == nil {
+		return
+	}
+	info := f.Info()
+	g := f.Graph()
+	// result variables of the tryBuffer calls
+	appendedObjs := map[types.Object]bool{}
+	abortedObjs := map[types.Object]bool{}
+	nTry := 0
+	ast.Inspect(f.Decl.Body, func(x ast.Node) bool {
+		as, ok := x.(*ast.AssignStmt)
+		if !ok || len(as.Rhs) != 1 || len(as.Lhs) != 2 {
+			return true
+		}
+		call, ok := unparen(as.Rhs[0]).(*ast.CallExpr)
+		if !ok || !isCallTo(info, call, tb.Obj) {
+			return true
+		}
+		nTry++
+		for i, set := range []map[types.Object]bool{appendedObjs, abortedObjs} {
+			if id, ok := as.Lhs[i].(*ast.Ident); ok && id.Name != "_" {
+				if o := info.Defs[id]; o != nil {
+					set[o] = true
+				} else if o := info.Uses[id]; o != nil {
+					set[o] = true
+				}
+			}
+		}
+		return true
+	})
+	c.Floor(rule+"#tryBuffer-results", nTry, 2)
+	promCalls := callsTo(f.Decl.Body, info, prom, false)
+	identIn := func(e ast.Expr, set map[types.Object]bool) bool {
+		id, ok := unparen(e).(*ast.Ident)
+		return ok && set[info.Uses[id]]
+	}
+	nRet := 0
+	for _, rn := range findNodes(f.Decl.Body, false, func(x ast.Node) bool { _, ok := x.(*ast.ReturnStmt); return ok }) {
+		r := rn.(*ast.ReturnStmt)
+		if len(r.Results) != 1 {
+			continue
+		}
+		nRet++
+		l, ok := g.LocOf(r)
+		if !ok {
+			continue
+		}
+		facts := g.FactsAt(l)
+		env := &triEnv{f: f, atom: func(e ast.Expr) (tri, bool) {
+			s := nosp(exprStr(e))
+			for _, ft := range facts {
+				if ft.Tag == nil && nosp(exprStr(ft.Cond)) == s {
+					if ft.Val {
+						return triT, true
+					}
+					return triF, true
+				}
+			}
+			return triU, false
+		}}
+		v := env.eval(r.Results[0])
+		promised := false
+		for _, pc := range promCalls {
+			if pl, ok := g.LocOf(pc); ok && g.reachFwd(pl, l) {
+				promised = true
+			}
+		}
+		abortedHere := factMatches(facts, func(ft Fact) bool { return ft.Val && identIn(ft.Cond, abortedObjs) })
+		appendedHere := factMatches(facts, func(ft Fact) bool { return ft.Val && identIn(ft.Cond, appendedObjs) })
+		cons := fmt.Sprintf("%s#return%d", f.Key, nRet)
+		val := map[tri]string{triT: "true", triF: "false", triU: "not provably true or false"}[v]
+		switch {
+		case promised || appendedHere:
+			what := "failed with promiseRecord"
+			if !promised {
+				what = "appended to a batch"
+			}
+			c.Check(v == triT, rule, cons+" after the record was finished or appended", r.Pos(), m, "returns true",
+				"bufferRecord returns `"+exprStr(r.Results[0])+"` ("+val+" under the facts of this path) on a path where the record was already "+what+": doPartition treats false as `not processed`, asks the partitioner for a new partition and buffers the record again, so it is failed/produced a second time - OnProduceRecordUnbuffered and the promise run twice for one OnProduceRecordBuffered and the buffered counters are decremented twice")
+		case abortedHere:
+			c.Check(v == triF, rule, cons+" on the aborted new batch", r.Pos(), m, "returns false",
+				"bufferRecord returns `"+exprStr(r.Results[0])+"` ("+val+") although tryBuffer aborted without touching the record: the record is neither buffered nor failed nor re-offered, so it was reported to OnProduceRecordBuffered but is never reported unbuffered and its promise never runs")
+		default:
+			c.Check(v == triT, rule, cons, r.Pos(), m, "returns true",
+				"bufferRecord returns `"+exprStr(r.Results[0])+"` ("+val+") on a path that is not the aborted-new-batch arm: only that arm leaves the record untouched; answering `not processed` elsewhere makes doPartition buffer the record a second time")
+		}
+	}
+	c.Floor(rule+"#returns", nRet, 5)
+	// the abort flag reaches only the new-batch attempt, and only doPartition's first offer may set it
+	abortParam := c14paramObj(f, 1)
+	nFlag := 0
+	for _, call := range callsTo(f.Decl.Body, info, tb.Obj, false) {
+		if len(call.Args) != 4 {
+			continue
+		}
+		if c14isIdentOf(info, call.Args[3], abortParam) {
+			nFlag++
+			continue
+		}
+		v, isC := constBool(info, call.Args[3])
+		c.Check(isC && !v, rule, f.Key+"#existing batch never aborts", call.Pos(), m, "", "a tryBuffer call other than the new-batch attempt can abort")
+	}
+	c.Check(nFlag == 1, rule, f.Key+"#abort flag passed to one tryBuffer", f.Pos(), m, "", fmt.Sprintf("abortOnNewBatch is passed to %d tryBuffer calls (one confirmed)", nFlag))
+	// callers: doPartition only; the re-offer is under !processed, cannot abort, and happens once
+	dp := c.NeedFunc(m, "kgo.Client.doPartition")
+	if dp == nil {
+		return
+	}
+	sites := CallSites(m.FuncsIn("kgo"), f.Obj)
+	var first, second *ast.CallExpr
+	for _, site := range sites {
+		call := site.Node.(*ast.CallExpr)
+		if site.Fn.Key != dp.Key || site.Lit != nil {
+			c.Fail(rule, site.Fn.Key+": calls bufferRecord", call.Pos(), m, "bufferRecord is called outside doPartition: its `not processed` answer is only handled there")
+			continue
+		}
+		if v, isC := constBool(dp.Info(), call.Args[1]); isC && !v {
+			second = call
+		} else {
+			first = call
+		}
+	}
+	c.Check(len(sites) == 2 && first != nil && second != nil, rule, dp.Key+"#offers", dp.Pos(), m, "one offer that may abort, one re-offer that may not", fmt.Sprintf("doPartition offers the record to bufferRecord %d times (two confirmed: one with the partitioner's abort flag, one re-offer with false)", len(sites)))
+	if first != nil && second != nil {
+		dg := dp.Graph()
+		dinfo := dp.Info()
+		// processed := first(...)
+		var procObj types.Object
+		ast.Inspect(dp.Decl.Body, func(x ast.Node) bool {
+			as, ok := x.(*ast.AssignStmt)
+			if ok && len(as.Lhs) == 1 && len(as.Rhs) == 1 && unparen(as.Rhs[0]) == ast.Expr(first) {
+				if id, ok := as.Lhs[0].(*ast.Ident); ok {
+					procObj = dinfo.Defs[id]
+				}
+			}
+			return true
+		})
+		l2, _ := dg.LocOf(second)
+		under := procObj != nil && factMatches(dg.FactsAt(l2), func(ft Fact) bool { return !ft.Val && c14isIdentOf(dinfo, ft.Cond, procObj) })
+		c.Check(under, rule, dp.Key+"#re-offer only when not processed", second.Pos(), m, "", "the second bufferRecord is not guarded by `!processed` of the first: a processed record is buffered twice")
+		l1, _ := dg.LocOf(first)
+		c.Check(dg.Dominates(l1, l2) && !dg.reachFwd(l2, l1) && !dg.reachFwd(l2, l2), rule, dp.Key+"#offers are not in a loop", first.Pos(), m, "", "the offers to bufferRecord are inside a loop")
 	}
 }
